@@ -419,7 +419,7 @@ func fieldOwnFeatures(f *FSpec, seen map[string]bool, sibNames map[string]bool) 
 		if lt.K == "ptr" {
 			lt = lt.E
 		}
-		if primKinds[lt.K] != nil {
+		if primKinds[lt.K] != nil || lt.K == "jsonnumber" { // json.Number has kind string
 			out["string-opt"] = true
 		} else {
 			out["string-opt-noop"] = true
@@ -726,7 +726,7 @@ func reductions(root *TSpec) []TSpec {
 	kinds := map[string]bool{}
 	var findCorpus func(t *TSpec)
 	findCorpus = func(t *TSpec) {
-		if k := standInKey(t); k != "" {
+		if k := standInKey(t); k != "" && t != root {
 			kinds[k] = true
 		}
 		if t.E != nil {
@@ -739,10 +739,7 @@ func reductions(root *TSpec) []TSpec {
 		}
 	}
 	findCorpus(root)
-	standIns := []TSpec{
-		{K: "struct", F: []FSpec{{Name: "A", Mode: "tagged", JName: "a", T: TSpec{K: "int"}}}},
-		{K: "corpus:Leaf"}, {K: "corpus:SelfPtrOmit"},
-	}
+	standIns := []TSpec{standInStruct, {K: "corpus:Leaf"}, {K: "corpus:SelfPtrOmit"}}
 	for _, k := range sortedKeys(kinds) {
 		for _, si := range standIns {
 			if standInRank(si.K) >= standInRank(k) {
@@ -751,7 +748,7 @@ func reductions(root *TSpec) []TSpec {
 			c := cloneT(*root)
 			var repl func(t *TSpec)
 			repl = func(t *TSpec) {
-				if standInKey(t) == k {
+				if t != &c && standInKey(t) == k {
 					*t = cloneT(si)
 					return
 				}
@@ -779,9 +776,19 @@ func standInKey(t *TSpec) string {
 		return t.K
 	case t.K == "struct" && len(t.F) == 0:
 		return "struct{}"
+	case t.K == "struct":
+		if c := canon(t); c != standInStructCanon {
+			return "S:" + c // every copy of one struct type is replaced together, so "used twice" survives
+		}
 	}
 	return ""
 }
+
+// standInFeature lists the features a reduction may introduce (the stand-ins themselves).
+var standInStruct = TSpec{K: "struct", F: []FSpec{{Name: "A", Mode: "tagged", JName: "a", T: TSpec{K: "int"}}}}
+var standInStructCanon = canon(&standInStruct)
+
+var standInFeature = map[string]bool{"reuse": true, "struct": true, "corpus:Leaf": true, "corpus:SelfPtrOmit": true, "corpus:EmbBase": true, "corpus:EmbOther": true}
 
 func standInRank(k string) int {
 	switch k {
